@@ -33,10 +33,11 @@ inductive BechSpec | bech32 | bech32m
 
 /-- the functions this model does not define itself -/
 structure Env where
-  /-- `b2a_hashed_base58` -/
-  b58cEnc : Bytes → String
-  /-- `parseable_str.parse_b58_double_sha256`: `None` for every failure, and for empty decoded data -/
-  b58cDec : String → Option Bytes
+  /-- `b2a_hashed_base58` (`.sha256d`) / the Groestlcoin symbol files' `b2a_hashed_base58_grs` (`.groestl`) -/
+  b58cEnc : HashKind → Bytes → String
+  /-- `parseable_str.parse_b58_double_sha256` / `coins/groestlcoin/parse.py:parse_b58_groestl`: `None` for every
+  failure, and for empty decoded data -/
+  b58cDec : HashKind → String → Option Bytes
   /-- `bech32m.encode(hrp, witver, witprog)` (`None` when the self-check fails) -/
   segwitEnc : String → Nat → Bytes → Option String
   /-- `parseable_str.parse_bech32`: `(hrp, version, decoded_data, spec)` -/
@@ -413,7 +414,7 @@ abbrev AddrOut := Except Err (Option String)
 def b58Out (env : Env) (net : Network) (pfx : Option Bytes) (payload : Bytes) : AddrOut :=
   match pfx with
   | none => .ok none
-  | some p => if net.b58DoubleSha then .ok (some (env.b58cEnc (p ++ payload))) else .error .unsupported
+  | some p => .ok (some (env.b58cEnc net.hashAddr (p ++ payload)))
 
 def forP2pkh (env : Env) (net : Network) (h : Bytes) : AddrOut := b58Out env net net.addrP2pkh h
 def forP2sh (env : Env) (net : Network) (h : Bytes) : AddrOut := b58Out env net net.addrP2sh h
@@ -454,10 +455,10 @@ def forP2sWit (env : Env) (net : Network) (script : Bytes) : AddrOut := forP2shW
 
 /-! ## `ParseAPI`: the address parsers -/
 
-/-- `ParseAPI.parse_b58_hashed` (`GRSParseAPI` overrides it with the Groestl checksum: with the hash library
-absent every call fails inside `parseable_str.cache`, i.e. `None`) -/
+/-- `ParseAPI.parse_b58_hashed` (`GRSParseAPI` overrides it with the Groestl checksum): the network's parse-side
+checksum hash, `Network.hashParse` -/
 def parseB58Hashed (env : Env) (net : Network) (s : String) : Option Bytes :=
-  if net.b58DoubleSha then env.b58cDec s else none
+  env.b58cDec net.hashParse s
 
 def isPrefixOf (p d : Bytes) : Bool := d.take p.length = p
 
@@ -548,22 +549,22 @@ over-approximation of the dict's key set only: a filled slot holds the decoder's
 answers — all that is observable — do not depend on it. -/
 
 structure PsCache where
-  /-- `_cache["b58_double_sha256"]`, if present -/
-  b58 : Option (Option Bytes)
+  /-- `_cache["b58_double_sha256"]` / `_cache["b58_groestl"]` (one key per checksum hash), if present -/
+  b58 : HashKind → Option (Option Bytes)
   /-- `_cache["bech32"]`, if present -/
   bech : Option (Option (String × Nat × Bytes × BechSpec))
 
-def PsCache.empty : PsCache := ⟨none, none⟩
+def PsCache.empty : PsCache := ⟨fun _ => none, none⟩
 
 /-- the decoders as a parser sees them on the shared object `text` -/
 def cachedEnv (env : Env) (text : String) (c : PsCache) : Env :=
   { env with
-    b58cDec := fun s => if s = text then (match c.b58 with | some v => v | none => env.b58cDec s) else env.b58cDec s
+    b58cDec := fun k s => if s = text then (match c.b58 k with | some v => v | none => env.b58cDec k s) else env.b58cDec k s
     bech32Parse := fun s => if s = text then (match c.bech with | some v => v | none => env.bech32Parse s) else env.bech32Parse s }
 
 /-- the dict after a call: an absent slot is computed by the decoder, a present one is left alone -/
 def PsCache.fill (env : Env) (text : String) (c : PsCache) : PsCache :=
-  ⟨some (match c.b58 with | some v => v | none => env.b58cDec text),
+  ⟨fun k => some (match c.b58 k with | some v => v | none => env.b58cDec k text),
    some (match c.bech with | some v => v | none => env.bech32Parse text)⟩
 
 /-- a list of parser calls (`step e σ` = the call described by `σ`, run with decoders `e`) on one shared object -/
